@@ -197,3 +197,20 @@ Definition mismatch_in (m : mode) (c : case) : bool :=
 Definition mismatch (c : case) : bool := mismatch_in Shared c.
 
 Definition violates (c : case) : bool := negb (Pb (c_obs c)).
+
+(** ** second driver: every registered gRPC query route of the custom modules around blocks that end a day epoch
+    (inflation mints), oracle vote periods and a slash window.  A gRPC query is a request script without any access to
+    state shared with block execution (in the model: [QRead]), so in BOTH modes the model predicts that nothing
+    block execution produces changes: all app hashes, the unibi supply after every block and all BeginBlock / EndBlock
+    events are equal with and without the requests. *)
+Record route_obs := mkRoute { r_hash_eq : bool; r_supply_eq : bool; r_events_eq : bool }.
+
+Inductive anycase := CEvm (c : case) | CRoute (o : route_obs).
+
+Definition route_clean (o : route_obs) : bool := r_hash_eq o && r_supply_eq o && r_events_eq o.
+
+Definition mismatch_any (m : mode) (c : anycase) : bool :=
+  match c with CEvm c => mismatch_in m c | CRoute o => negb (route_clean o) end.
+
+Definition violates_any (c : anycase) : bool :=
+  match c with CEvm c => violates c | CRoute o => negb (route_clean o) end.
